@@ -173,4 +173,35 @@ Proof. destruct c as [rs cs [s|] ng an asc]; reflexivity. Qed.
 Lemma a2_copy_anything c : anything (cls_copy c) = anything c.
 Proof. destruct c; reflexivity. Qed.
 
+Lemma a2_sorted_b p rs : sorted_b p rs = true -> sorted_from p rs.
+Proof.
+  revert p. induction rs as [|[a b] t IH]; intros p H; cbn [sorted_b sorted_from] in *; [exact I|].
+  apply andb_true_iff in H. destruct H as [H H3]. apply andb_true_iff in H. destruct H as [H1 H2].
+  split; [lia|]. split; [lia|]. apply IH. exact H3.
+Qed.
+
+Lemma a2_canon_b : forall c, canon_b c = true -> canonical c /\ bitmaps_ok cat_in c.
+Proof.
+  induction c using cls_induction; cbn [canon_b canonical bitmaps_ok]; intros H.
+  - apply andb_true_iff in H. destruct H as [H _]. apply andb_true_iff in H. destruct H as [H1 H2].
+    destruct asc; [discriminate H2|]. split; [|tauto]. split; [|exact I].
+    destruct rs as [|[a b] t]; cbn [canon_ranges_b canonical_ranges] in *; [exact I|].
+    apply andb_true_iff in H1. destruct H1 as [Ha Hb]. split; [lia|apply a2_sorted_b; exact Hb].
+  - apply andb_true_iff in H. destruct H as [H H3]. apply andb_true_iff in H. destruct H as [H1 H2].
+    destruct asc; [discriminate H2|]. destruct (IHc H3) as [I1 I2]. split; [|tauto]. split; [|exact I1].
+    destruct rs as [|[a b] t]; cbn [canon_ranges_b canonical_ranges] in *; [exact I|].
+    apply andb_true_iff in H1. destruct H1 as [Ha Hb]. split; [lia|apply a2_sorted_b; exact Hb].
+Qed.
+
+Lemma a2_cls_good_b c : cls_good_b c = true -> gcls c.
+Proof.
+  unfold cls_good_b. intros H. apply andb_true_iff in H. destruct H as [H H3].
+  apply andb_true_iff in H. destruct H as [H1 H2]. destruct (a2_canon_b c H1) as [Hc Hb].
+  split; [exact Hc|]. split; [exact Hb|]. split.
+  - intros Ha. rewrite Ha in H2. destruct (ranges c) as [|[a b] [|r t]]; try discriminate H2.
+    unfold MAXR in H2. unfold max_rune. f_equal. f_equal; lia.
+  - unfold wf_ranges. rewrite Forall_forall. rewrite forallb_forall in H3. intros r Hr. specialize (H3 r Hr).
+    unfold wf_range, MAXR, max_rune in *. lia.
+Qed.
+
 End Cls.
